@@ -115,6 +115,8 @@ type State struct {
 	fails    []*Failure
 	notes    []string
 	uf       map[string][]ufApp
+	model    map[int]uint64 // assignment (var term ID -> value) known to satisfy the pc up to modelPC; immutable, shared
+	modelPC  *pcNode
 }
 
 type ufApp struct {
@@ -140,6 +142,7 @@ func (s *State) clone() *State {
 		trace: append([]nondetRec(nil), s.trace...), nchoice: s.nchoice, steps: s.steps, status: s.status, msg: s.msg,
 		reach: make(map[string]bool, len(s.reach)), fails: append([]*Failure(nil), s.fails...),
 		notes: append([]string(nil), s.notes...),
+		model: s.model, modelPC: s.modelPC,
 	}
 	for k, v := range s.heap {
 		n.heap[k] = v
